@@ -182,6 +182,15 @@ func RunFamily(f *Family, o RunOpts) int {
 	for k, v := range agg.extra {
 		cov["x_"+k] = v
 	}
+	if f.Extra != nil {
+		xcov, xviol := f.Extra(o.Tier)
+		for k, v := range xcov {
+			cov[k] = v
+		}
+		for _, v := range xviol {
+			rep.Add(v)
+		}
+	}
 	known := rep.KnownHits()
 	if len(known) > 0 {
 		cov["known_finding_hits"] = known
